@@ -491,14 +491,14 @@ Qed.
 Lemma bcast_step s l s' : step s l = Some s' ->
   (bcast s' = bcast s /\ eof_seen s' = eof_seen s /\ forall e, l <> LErrBcast e /\ l <> LReadEof) \/
   (exists e, l = LErrBcast e /\ bcast s' = Some e /\ eof_seen s' = eof_seen s /\ pc s' = WErrSnap e /\
-             (pc s = WRaise e \/ (pc s = WIdle /\ e = 1))) \/
+             ((exists e', pc s = WRaise e' /\ e = bcast_code (closing s) e') \/ (pc s = WIdle /\ e = 1))) \/
   (l = LReadEof /\ bcast s' = bcast s /\ eof_seen s' = true /\ pc s = WIdle /\ pc s' = WRaise 1).
 Proof.
   intros H. destruct l; inv_step H; simpl in *.
   all: try (destruct (qualify s); simpl).
   all: try solve [left; repeat split; intros; discriminate].
   all: try solve [right; right; apply is_idle_true in E; auto].
-  all: try solve [right; left; apply N.eqb_eq in E0; subst; eexists; repeat split; auto].
+  all: try solve [right; left; apply N.eqb_eq in E0; subst; eexists; repeat split; eauto].
   all: try solve [right; left; apply andb_true_iff in E0 as [_ E0]; apply N.eqb_eq in E0; subst; eexists; repeat split; auto].
 Qed.
 
@@ -547,19 +547,21 @@ Proof.
     assert (Hnone : bcast s = None).
     { destruct (bcast s) eqn:Eb; [|reflexivity]. exfalso.
       assert (Hx : errphase (pc s) = true) by (apply (b_bc _ HB); congruence).
-      destruct Hp as [Hp|[Hp _]]; rewrite Hp in Hx; discriminate. }
+      destruct Hp as [(e' & Hp & _)|[Hp _]]; rewrite Hp in Hx; discriminate. }
     repeat split.
     + intros rid r' e Hr He. exfalso.
       destruct (rq_step _ _ _ _ _ H Hr) as [Hu|[(r & c & Hu & -> & _)|[(r & id & Hu & -> & Hpc)|[(r & e1 & rest & Hu & -> & Hpc)|(_ & id & Hx & _)]]]];
         simpl in He; try (pose proof (b_err _ HB _ _ _ Hu He); congruence); try discriminate.
-      destruct Hp as [Hp|[Hp _]]; congruence.
+      destruct Hp as [(e' & Hp & _)|[Hp _]]; congruence.
     + intros e He. rewrite Hp' in He. simpl in He. congruence.
     + intros _. rewrite Hp'. reflexivity.
     + left. rewrite Hp'. reflexivity.
     + intros e He. rewrite Hb in He. injection He as <-. rewrite Hf in H0.
       destruct (proj1 (b_eof _ HB H0)) as [Hx|Hx].
-      * destruct Hp as [Hp|[Hp _]]; rewrite Hp in Hx; discriminate.
-      * destruct Hp as [Hp|[Hp He1]]; [congruence|assumption].
+      * destruct Hp as [(e' & Hp & _)|[Hp _]]; rewrite Hp in Hx; discriminate.
+      * destruct Hp as [(e' & Hp & He')|[Hp He1]]; [|assumption].
+        assert (e' = 1) by congruence. subst e'. rewrite He'. unfold bcast_code, is_transport. simpl.
+        destruct (closing s); reflexivity.
   - (* end of file read *)
     assert (Hnone : bcast s = None).
     { destruct (bcast s) eqn:Eb; [|reflexivity]. exfalso.
@@ -955,3 +957,45 @@ Proof.
   - right. auto.
   - left. apply N.eqb_eq in E1. subst. split; [reflexivity|]. eexists; repeat split; reflexivity.
 Qed.
+
+(* ---------- C14, session clause ---------- *)
+Lemma c14_worker_stop s : reach s -> pc s = WExited ->
+  connected s = false /\
+  (forall rid r, rq s rid = Some r -> In rid (wrote s) -> r_reply r = None -> r_error r <> None /\ r_ev r = true).
+Proof.
+  intros Hr Hp. split; [apply c04_disconnected; auto|].
+  intros rid r Hq Hw Hrep. eapply c04_all_failed; eauto.
+Qed.
+
+(* a reply whose id is unknown, or that has no id, is never a delivery: the listener raises (OperationError) *)
+Lemma c14_unknown_id s id s' :
+  step s (LTGet id false) = Some s' ->
+  tget id (table s) = None /\ pc s' = WRaise 2 /\ reqs s' = reqs s /\ deliver_log s' = deliver_log s.
+Proof. intros H. inv_step H; simpl; repeat split; auto. Qed.
+
+Lemma c14_missing_id s arg s' :
+  lst s = true -> step s (LRecv 1 arg) = Some s' ->
+  pc s' = WRaise 2 /\ reqs s' = reqs s /\ deliver_log s' = deliver_log s.
+Proof.
+  intros Hl H. unfold step in H. destruct (is_idle (pc s)); [|discriminate]. simpl in H. rewrite Hl in H. simpl in H.
+  injection H as <-. repeat split; reflexivity.
+Qed.
+
+(* a payload that is not XML is dropped: nothing changes *)
+Lemma c14_nonxml_dropped s arg s' : step s (LRecv 5 arg) = Some s' -> s' = s.
+Proof. intros H. inv_step H; simpl in *; try discriminate; reflexivity. Qed.
+
+(* once an exception propagates (framing error, undecodable octets, unknown id, read error) the worker can only
+   broadcast it: it delivers nothing, dequeues nothing and does not return to the idle loop *)
+Lemma c14_raise_only s e l s' :
+  pc s = WRaise e -> step s l = Some s' ->
+  pc s' = WRaise e \/ (l = LErrBcast (bcast_code (closing s) e) /\ pc s' = WErrSnap (bcast_code (closing s) e)).
+Proof.
+  intros Hp H. destruct l; inv_step H; simpl in *; try congruence; auto.
+  all: try (destruct (qualify s); simpl; auto).
+  all: try solve [apply is_idle_true in E; congruence].
+  all: try solve [right; apply N.eqb_eq in E0; injection Hp as <-; subst; auto].
+Qed.
+
+(* a framing break reaches every pending request: from the raise to the end of the broadcast there is no blocking
+   label, and at the end every written, unanswered request is failed (this is c04_all_failed_after_broadcast) *)
